@@ -360,3 +360,51 @@ package router
 //@   ensures result == pForward && !dstLocal && p.effectiveXover ==> xoverOK(p.d.linkTypes[p.ingressFromLink], p.d.linkTypes[p.pkt.egress])
 //@   # C15
 //@   ensures result == pForward && !dstLocal ==> lastIsUp && lastIsUpLink == p.d.interfaces[p.pkt.egress]
+
+//@ # ---- C17: configured socket buffer sizes reach the provider (router side)
+//@ spec func provRcv(p UnderlayProvider) int uninterpreted
+//@ spec func provSnd(p UnderlayProvider) int uninterpreted
+//@ # contract of every underlay provider factory, by the parameter names of the NewProviderFn type
+//@ iface NewProviderFn.call
+//@   modifies nothing
+//@   ensures result != nil && provRcv(result) == receiveBufferSize && provSnd(result) == sendBufferSize
+
+//@ func makeDataPlane
+//@   props C17
+//@   requires inmap(underlayProviders, "udpip") && underlayProviders["udpip"] != nil
+//@   ensures inmap(result.underlays, "udpip") && provRcv(result.underlays["udpip"]) == runConfig.ReceiveBufferSize && provSnd(result.underlays["udpip"]) == runConfig.SendBufferSize
+//@   ensures result.RunConfig == runConfig
+
+//@ macro provOK(d, name) = (inmap(d.underlays, name) && d.underlays[name] != nil && provRcv(d.underlays[name]) == d.RunConfig.ReceiveBufferSize && provSnd(d.underlays[name]) == d.RunConfig.SendBufferSize)
+//@ # frame assumptions for constructors that do not touch the provider table or the run configuration
+//@ func (*dataPlane).newExternalInterfaceBFD
+//@   trusted
+//@   modifies nothing
+//@ func (*dataPlane).newNextHopBFD
+//@   trusted
+//@   modifies nothing
+//@ func newInterfaceMetrics
+//@   trusted
+//@   modifies nothing
+//@ iface UnderlayProvider.NewExternalLink
+//@   modifies nothing
+//@ iface UnderlayProvider.NewSiblingLink
+//@   modifies nothing
+
+//@ func (*dataPlane).AddExternalInterface
+//@   props C17
+//@   panics_when !inmap(d.underlays, link.Provider) && !inmap(underlayProviders, link.Provider)
+//@   requires inmap(d.underlays, link.Provider) ==> provOK(d, link.Provider)
+//@   requires inmap(underlayProviders, link.Provider) ==> underlayProviders[link.Provider] != nil
+//@   requires d.underlays != nil
+//@   ensures result == nil ==> provOK(d, link.Provider)
+//@   ensures d.RunConfig == old(d.RunConfig)
+
+//@ func (*dataPlane).AddNextHop
+//@   props C17
+//@   panics_when !inmap(d.underlays, link.Provider) && !inmap(underlayProviders, link.Provider)
+//@   requires inmap(d.underlays, link.Provider) ==> provOK(d, link.Provider)
+//@   requires inmap(underlayProviders, link.Provider) ==> underlayProviders[link.Provider] != nil
+//@   requires d.underlays != nil
+//@   ensures result == nil ==> provOK(d, link.Provider)
+//@   ensures d.RunConfig == old(d.RunConfig)
